@@ -100,6 +100,18 @@ SubstrH == \E h \in H, i \in Args, j \in Args : Live(h) /\ FreeH # {} /\ i <= j 
     LET r == MinFree(FreeH) IN
     View("substr", h, r, hs[h].s + i, hs[h].s + j, hs[h], BSub(ghost[h], i, j), ghost[h], [h |-> h, r |-> r, i |-> i, j |-> j])
 
+\* seek / substr take ABSOLUTE bit positions of the buffer: a position in front of the value's start or behind its end
+\* is refused (the value must not give access to the bits around it)
+AbsPos == {0, 1, 4, 8, 9, 16}
+SeekAbsH == Start = "any" /\ \E h \in H, a \in AbsPos : Live(h) /\ FreeH # {} /\
+    LET r == MinFree(FreeH) IN
+    IF a >= hs[h].s /\ a <= hs[h].e
+    THEN View("seekabs", h, r, a, hs[h].e, hs[h], BDrop(ghost[h], a - hs[h].s), ghost[h], [h |-> h, r |-> r, a |-> a, none |-> 0])
+    ELSE UNCHANGED <<bufs, hs, ghost>> /\ Emit("seekabs", [h |-> h, r |-> r, a |-> a, none |-> 1])
+SubstrAbsH == Start = "any" /\ \E h \in H, i \in AbsPos, j \in AbsPos : Live(h) /\ FreeH # {} /\ (i < hs[h].s \/ j > hs[h].e \/ i > j) /\
+    LET r == MinFree(FreeH) IN
+    UNCHANGED <<bufs, hs, ghost>> /\ Emit("substrabs", [h |-> h, r |-> r, i |-> i, j |-> j, none |-> 1])
+
 \* detach(self): the unique owner keeps buffer and range; an empty value becomes Bitstr::new();
 \* otherwise the bits are copied left-aligned into a fresh buffer (zero padded)
 \* returns <<bufs2, handle2>>; needs a free buffer when it copies
@@ -162,7 +174,7 @@ InsertH == \E h \in H, t \in H, k \in Args : Live(h) /\ Live(t) /\ h # t /\ k <=
     /\ ghost' = [ghost EXCEPT ![h] = BInsert(ghost[h], k, ghost[t])]
     /\ Emit("insert", [h |-> h, t |-> t, k |-> k])
 
-Next == dep < MaxDepth /\ dep' = dep + 1 /\ (FromBytes(FALSE) \/ FromBytes(TRUE) \/ DropH \/ CloneH \/ ReadH \/ PeekH \/ SeekH \/ SubstrH
+Next == dep < MaxDepth /\ dep' = dep + 1 /\ (FromBytes(FALSE) \/ FromBytes(TRUE) \/ DropH \/ CloneH \/ ReadH \/ PeekH \/ SeekH \/ SubstrH \/ SeekAbsH \/ SubstrAbsH
         \/ AppendH \/ InvertH \/ DetachH \/ InsertH)
 Spec == (IF Start = "any" THEN InitAny ELSE Init) /\ [][Next]_vars
 
